@@ -3212,11 +3212,15 @@ class NameCheckVisitor(node_visitor.ReplacingNodeVisitor):
             f_str_ast = ast.parse(f_str)
         except SyntaxError:
             return
-        names = {
-            subnode.id
-            for subnode in ast.walk(f_str_ast)
-            if isinstance(subnode, ast.Name)
-        }
+        # in order of appearance: _name_exists() marks a name as accessed and all()
+        # stops at the first missing one, so the order decides which names are marked
+        names = list(
+            dict.fromkeys(
+                subnode.id
+                for subnode in ast.walk(f_str_ast)
+                if isinstance(subnode, ast.Name)
+            )
+        )
         # TODO:
         # - use nearest_enclosing() to find the Call node
         # - don't suggest this if there's (a lot of?) stuff after :
@@ -3236,7 +3240,7 @@ class NameCheckVisitor(node_visitor.ReplacingNodeVisitor):
                 # this covers our translation API (translate("hello {user}", user=...)).
                 elif isinstance(parent, ast.Call):
                     keywords = {kw.arg for kw in parent.keywords if kw.arg is not None}
-                    if names <= keywords:
+                    if set(names) <= keywords:
                         return
             stmt = f_str_ast.body[0]
             assert isinstance(stmt, ast.Expr), f"unexpected ast {ast.dump(f_str_ast)}"
